@@ -655,10 +655,10 @@ notReserved:
 
 	mxi := MxInterfaces[dataType]
 	if mxi != nil {
+		v.mutex.Lock()
+
 		mxvar := v.vars[name]
 		if mxvar != nil && mxvar.IsInterface {
-
-			v.mutex.Lock()
 
 			err := mxvar.Value.(MxInterface).Set(value, changePath)
 			if err != nil {
@@ -669,6 +669,8 @@ notReserved:
 
 			return err
 		}
+
+		v.mutex.Unlock()
 
 		s, _, err := convertDataType(p, value, dataType, &name)
 		if err != nil {
